@@ -34,6 +34,9 @@ def check(repo: Repo, rep: Report) -> None:
                             "count exactly once per call; the getter increments exactly once per live dependent", floor=4)
     rep.rule("I1-inner-once", "InnerDisposable.dispose swaps parent under its lock and releases only the non-None parent "
                               "it obtained", floor=3)
+    rep.rule("D1-dependent-per-subscription", "add_ref / GroupedObservable take `r.disposable` for every subscription and before subscribing the wrapped sequence", floor=2)
+    from .common_own import rule_dependent_reference
+    rule_dependent_reference(repo, rep, "D1-dependent-per-subscription")
     cls = repo.fn(F, "RefCountDisposable")
     cl = ClassLocks(repo, cls, ["self.lock"], FIELDS)
     for m in cl.methods:
@@ -64,7 +67,11 @@ def check(repo: Repo, rep: Report) -> None:
                 return "UNDER"
             return None
         sets = [s for s in sites(m) if ev(s.node) == "SET"]
-        rep.require(sets, f"is_disposed = True in {m.ref}")
+        if not sets:
+            rep.ob("R1-release-guard", m, f"{mname}: the final release marks the container disposed", False,
+                   f"{mname} never sets is_disposed: after the underlying disposable was released a later dependent (or a second "
+                   f"release) finds count == 0 and primary disposed again and disposes the underlying a second time")
+            continue
         for s in sets:
             g = s.ctx.guards
             zero = any((u(e) == "self.count" and not p) or (u(e) in ("self.count == 0", "0 == self.count") and p)
